@@ -574,8 +574,8 @@ def x_fsh(e, st, fr, a, name):
         return ((cat << c) >> w) & mask(w) if left else (cat >> c) & mask(w)
     X = bv(x_, w); Y = bv(y, w)
     if c == 0: return X if left else Y
-    if left: return z3.simplify((X << c) | z3.LShR(Y, w - c))
-    return z3.simplify((X << (w - c)) | z3.LShR(Y, c))
+    r = ((X << c) | z3.LShR(Y, w - c)) if left else ((X << (w - c)) | z3.LShR(Y, c))
+    return r if e.simp else z3.simplify(r)
 
 
 def x_bswap(e, st, fr, a, name):
@@ -583,7 +583,7 @@ def x_bswap(e, st, fr, a, name):
     n = w // 8
     if v.__class__ is int:
         return int.from_bytes(v.to_bytes(n, 'little'), 'big')
-    return z3.simplify(z3.Concat(*[z3.Extract(8 * i + 7, 8 * i, v) for i in range(n)]))
+    return e.S(z3.Concat(*[z3.Extract(8 * i + 7, 8 * i, v) for i in range(n)]))
 
 
 def x_ctpop(e, st, fr, a, name):
